@@ -120,6 +120,10 @@ fn build(ops: &[Value]) -> Router {
             "route" => r.route(op["pat"].as_str().unwrap(), Tagged(i as u64 + 1)),
             "layer" => r.route_layer(MarkLayer(op["id"].as_u64().unwrap())),
             "merge" => r.merge(sub(op["sub"].as_u64().unwrap())),
+            "mergefork" => {
+                let fork = r.clone().route_layer(MarkLayer(op["id"].as_u64().unwrap()));
+                r.merge(fork)
+            }
             _ => r,
         };
     }
@@ -258,7 +262,12 @@ pub fn replay(a: &Args) -> i32 {
         let body = Bytes::from(bincode::serialize(&crate::gen::Msg { a: 1, s: "hi".into() }).unwrap());
         for (path, own) in [("/Greeter/SayHello", true), ("/Greeter/Say", true), ("/p.q.Greeter/SayHello", true),
                             ("/.Greeter/SayHello", false), ("/Greeter", false), ("/q.Greeter/SayHello", false), ("/p.Empty", false),
-                            ("Greeter/SayHello", false), ("//Greeter/SayHello", false)] {
+                            ("Greeter/SayHello", false), ("//Greeter/SayHello", false),
+                            // under a service's prefix only its methods' exact routes are routes
+                            ("/Greeter//SayHello", false), ("/Greeter/v2/SayHello", false), ("/Greeter/../SayHello", false),
+                            ("/Greeter/SayHello/", false), ("/Greeter/SayHello/SayHello", false), ("/Greeter/Say/SayHello", false),
+                            ("/Greeter/sayhello", false), ("/Greeter/", false), ("/p.q.Greeter/x/SayHello", false),
+                            ("/p.q.Greeter/Say", false), ("/Greeter/SayHello\0", false), ("/Greeter/ SayHello", false)] {
             evaluations += 1;
             let resp = futures::executor::block_on(r.clone().oneshot(Request::new(body.clone()).with_route(path)));
             let reached = matches!(&resp, Ok(x) if x.status() != StatusCode::NotFound);
